@@ -525,6 +525,9 @@ func tomaGen(r *RNG, id string, windows bool) *Case {
 	if m := manyRecords(r, c, 25); m > 0 {
 		sc = manySam(r, m)
 	}
+	if !windows {
+		splitBlocks(r, &sc)
+	}
 	sc.fill(c)
 	start, end := -1, -1
 	if windows || r.Chance(1, 4) {
@@ -564,6 +567,26 @@ func execToma(r *RNG, c *Case) {
 	c.Set("go", goField(res))
 }
 
+// splitBlocks: one case in six is a file in which a query's records are not contiguous (a coordinate-sorted file): a
+// further record of the first query follows the records of the other queries. gofasta treats the two runs as two
+// blocks of the same name; toMultiAlign writes two records, toPairAlign two pairs (to a directory: the same file twice,
+// the later block in input order stays)
+func splitBlocks(r *RNG, sc *samCase) {
+	L := len(sc.ref)
+	if len(sc.recs) < 2 || L < 12 || !r.Chance(1, 6) {
+		return
+	}
+	first := sc.recs[0].name
+	if sc.recs[len(sc.recs)-1].name == first {
+		return
+	}
+	k := r.Range(4, L/2)
+	pos := r.Range(1, L-k+1)
+	seq := mutateSeq(r, strings.ToUpper(sc.ref[pos-1:pos-1+k]), symACGT, 1, 3, false)
+	sc.recs = append(sc.recs, samRec{name: first, flag: 2048, pos: pos, cigar: fmt.Sprintf("%dM", k), seq: seq})
+	sc.tags["query-records-not-contiguous"] = true
+}
+
 func topaGen(r *RNG, id string, windows bool) *Case {
 	c := NewCase("TOPA", id)
 	sc := genSam(r, true, r.PickInt([]int{0, 2, 5}))
@@ -588,6 +611,9 @@ func topaGen(r *RNG, id string, windows bool) *Case {
 	}
 	if r.Chance(1, 8) {
 		sc.ref = mutateSeq(r, sc.ref, "NRY", 1, 15, true) // the reference file may carry IUPAC codes and lower case
+	}
+	if !windows {
+		splitBlocks(r, &sc)
 	}
 	sc.fill(c)
 	start, end := -1, -1
@@ -685,6 +711,7 @@ func execTopa(r *RNG, c *Case) {
 			c.Tag("topa-stdout")
 			return
 		}
+		c.Set("dirmode", "1")
 		c.Set("go", goField(viaCLI(map[string]string{"a.sam": txt, "r.fa": refTxt}, "", args, func(d string) (string, error) {
 			var parts []string
 			for _, n := range blockNames(recs) {
@@ -705,6 +732,7 @@ func execTopa(r *RNG, c *Case) {
 			os.WriteFile(filepath.Join(dir, n+".fasta"), []byte(">stale\n"+strings.Repeat("STALESTALE\n", 60)), 0644)
 		}
 	}
+	c.Set("dirmode", "1")
 	res := safeRun(30*time.Second, func() (string, error) {
 		err := sam.ToPairAlign(strings.NewReader(txt), strings.NewReader(refTxt), dir, atoi(c.Get("wrap")), atoi(c.Get("start")), atoi(c.Get("end")),
 			c.Get("omitref") == "1", c.Get("omitins") == "1", atoi(c.Get("threads")))
